@@ -151,7 +151,7 @@ def cond_text(rng, spec: dict, simulate: bool = False) -> str:
         elif r < 0.98:
             cu = ""
         else:
-            cu = rng.choice(["xx", "Lh", "sec"])
+            cu = rng.choice(["xx", "Lh", "zz"])
     elif rng.random() < 0.04:
         cu = rng.choice(["s", "%", "kg"])
     sep = rng.choice(["", " "]) if cu else ""
